@@ -172,6 +172,8 @@ func main() {
 			fmt.Println(w, "workers, 16 blocks of 3200:", time.Since(t1))
 		}
 		return
+	case "C08":
+		genC08(*out, *tier, rng)
 	case "C18":
 		genC18(*out, *tier, rng)
 	case "C16":
